@@ -36,20 +36,22 @@ Proof. exact recv_enabled_when_token_or_closed. Qed.
 
 (* ---- well-formed producer/consumer programs ---- *)
 
+(* pc_wf cap vss nc nd c0: c0 has the queue and wait group of [pc_config cap vss nc nd] and its
+   threads in any order (goroutines may be numbered arbitrarily) *)
 Theorem C05_deadlock_free :
-  forall cap vss nc nd c,
-    1 <= cap -> 1 <= nc -> reachable (pc_config cap vss nc nd) c -> deadlocked c = false.
+  forall cap vss nc nd c0 c,
+    1 <= cap -> 1 <= nc -> pc_wf cap vss nc nd c0 -> reachable c0 c -> deadlocked c = false.
 Proof. exact pc_deadlock_free. Qed.
 
 Theorem C05_progress :
-  forall cap vss nc nd c,
-    1 <= cap -> 1 <= nc -> reachable (pc_config cap vss nc nd) c -> final c = false ->
+  forall cap vss nc nd c0 c,
+    1 <= cap -> 1 <= nc -> pc_wf cap vss nc nd c0 -> reachable c0 c -> final c = false ->
     exists t, t < length (threads c) /\ enabled c t = true.
 Proof. exact pc_progress. Qed.
 
 Theorem C05_no_goroutine_panics :
-  forall cap vss nc nd c,
-    1 <= cap -> 1 <= nc -> reachable (pc_config cap vss nc nd) c -> no_stuck c.
+  forall cap vss nc nd c0 c,
+    1 <= cap -> 1 <= nc -> pc_wf cap vss nc nd c0 -> reachable c0 c -> no_stuck c.
 Proof. exact pc_no_panic. Qed.
 
 (* the measure: 2 per buffered token + per thread the micro-steps of its pending calls; it
@@ -63,14 +65,13 @@ Theorem C05_schedule_bound :
 Proof. exact run_strict_bound. Qed.
 
 Theorem C05_measure_of_program :
-  forall cap vss nc nd,
-    mu (pc_config cap vss nc nd) = 4 * length (concat vss) + length vss + 2 + nc + nd.
-Proof. exact mu_pc. Qed.
+  forall cap vss nc nd c0, pc_wf cap vss nc nd c0 ->
+    mu c0 = 4 * length (concat vss) + length vss + 2 + nc + nd.
+Proof. exact mu_pc_wf. Qed.
 
 Theorem C05_terminates :
-  forall cap vss nc nd,
-    1 <= cap -> 1 <= nc ->
-    let c0 := pc_config cap vss nc nd in
+  forall cap vss nc nd c0,
+    1 <= cap -> 1 <= nc -> pc_wf cap vss nc nd c0 ->
     (forall c t c', reachable c0 c -> step c t = Some c' -> mu c' < mu c) /\
     (forall s c, run_strict c0 s = Some c -> length s <= mu c0) /\
     (forall c, reachable c0 c -> deadlocked c = false) /\
@@ -78,28 +79,30 @@ Theorem C05_terminates :
 Proof. exact pc_terminates. Qed.
 
 (* every maximal run: all goroutines finished, none panicked, the queue closed and empty,
-   every value popped exactly once; without RemoveAll callers every value was delivered to
-   exactly one consumer (with them: delivered or discarded) *)
+   every value popped exactly once; the delivered values are all values except those some
+   RemoveAll discarded; without RemoveAll callers every value was delivered exactly once *)
 Theorem C05_terminates_maximal_run :
-  forall cap vss nc nd s c,
-    1 <= cap -> 1 <= nc ->
-    run_strict (pc_config cap vss nc nd) s = Some c -> (forall t, enabled c t = false) ->
-    length s <= mu (pc_config cap vss nc nd) /\
+  forall cap vss nc nd c0 s c,
+    1 <= cap -> 1 <= nc -> pc_wf cap vss nc nd c0 ->
+    run_strict c0 s = Some c -> (forall t, enabled c t = false) ->
+    length s <= mu c0 /\
     final c = true /\ no_stuck c /\
     qclosed (getq c 0) = true /\ qtok (getq c 0) = 0 /\ qvals (getq c 0) = [] /\
     qpop (getq c 0) = qapp (getq c 0) /\
     Permutation (qapp (getq c 0)) (concat vss) /\
+    (exists discarded, Permutation (delivered c ++ discarded) (concat vss)) /\
     (nd = 0 -> Permutation (delivered c) (concat vss)).
 Proof. exact pc_maximal_run. Qed.
 
 Theorem C05_terminal_state :
-  forall cap vss nc nd c,
-    1 <= cap -> 1 <= nc -> reachable (pc_config cap vss nc nd) c ->
+  forall cap vss nc nd c0 c,
+    1 <= cap -> 1 <= nc -> pc_wf cap vss nc nd c0 -> reachable c0 c ->
     (forall t, step c t = None) ->
     final c = true /\ no_stuck c /\
     qclosed (getq c 0) = true /\ qtok (getq c 0) = 0 /\ qvals (getq c 0) = [] /\
     qpop (getq c 0) = qapp (getq c 0) /\
     Permutation (qapp (getq c 0)) (concat vss) /\
+    (exists discarded, Permutation (delivered c ++ discarded) (concat vss)) /\
     (nd = 0 -> Permutation (delivered c) (concat vss)).
 Proof. exact pc_terminal. Qed.
 
@@ -140,8 +143,23 @@ Definition ex_rr : list nat := concat (repeat [0; 1; 2; 3; 4] 8).
 Definition ex_strict : list nat :=
   [0; 1; 0; 3; 0; 1; 3; 4; 0; 1; 3; 4; 0; 1; 3; 4; 1; 2; 4; 2; 3; 4].
 
-Example ex_pc_initial : initial ex_pc /\ simple ex_pc.
-Proof. split; [apply pc_initial | apply W_simple; apply pc_W; lia]. Qed.
+Example ex_pc_initial : initial ex_pc /\ simple ex_pc /\ pc_wf 1 [[1; 2]; [3; 4]]%Z 2 0 ex_pc.
+Proof. split; [apply pc_initial | split; [apply W_simple; apply pc_W; lia | apply pc_wf_refl]]. Qed.
+
+(* the same goroutines numbered differently: consumers first *)
+Definition ex_pc_perm : config :=
+  {| queues := [mkq 1]; wg := 2;
+     threads := [consumer 0; consumer 0; closer; producer [3; 4]%Z; producer [1; 2]%Z] |}.
+Example ex_pc_perm_wf : pc_wf 1 [[1; 2]; [3; 4]]%Z 2 0 ex_pc_perm.
+Proof.
+  split; [reflexivity|]. split; [reflexivity|].
+  exact (Permutation_rev [consumer 0; consumer 0; closer; producer [3; 4]%Z; producer [1; 2]%Z]).
+Qed.
+
+Example ex_pc_perm_runs :
+  final (run ex_pc_perm (concat (repeat [0; 1; 2; 3; 4] 12))) = true /\
+  delivered (run ex_pc_perm (concat (repeat [0; 1; 2; 3; 4] 12))) = [3; 4; 1; 2]%Z.
+Proof. vm_compute. split; reflexivity. Qed.
 
 Example ex_pc_maximal_run :
   exists c, run_strict ex_pc ex_strict = Some c /\ run ex_pc ex_rr = c /\
@@ -180,6 +198,8 @@ Proof. vm_compute. split; reflexivity. Qed.
 (* the same program with a RemoveAll caller that runs while a producer is blocked on the full
    queue: values 1 and 3 are discarded, 2 and 4 delivered, everything terminates *)
 Definition ex_pcd : config := pc_config 1 [[1; 2]; [3; 4]]%Z 2 1.
+Example ex_pcd_wf : pc_wf 1 [[1; 2]; [3; 4]]%Z 2 1 ex_pcd.
+Proof. apply pc_wf_refl. Qed.
 Definition ex_strict_d : list nat :=
   [0; 0; 1; 5; 5; 1; 5; 5; 5; 0; 1; 0; 3; 0; 1; 3; 4; 1; 2; 4; 2; 3; 4].
 
